@@ -270,7 +270,12 @@ class Library:
                 return round(x, n) if n is not None else round(x)
             raise OutOfReach("round of symbolic")
 
-        return {"len": b_len, "range": b_range, "float": b_float, "int": b_int, "abs": b_abs, "min": smin, "max": smax,
+        def b_divmod(a, b):
+            if isinstance(a, (int, SInt)) and isinstance(b, (int, SInt)):
+                return (a // b, a % b)
+            raise OutOfReach("divmod of non-integers")
+
+        return {"len": b_len, "range": b_range, "float": b_float, "int": b_int, "abs": b_abs, "min": smin, "max": smax, "divmod": b_divmod,
                 "sum": b_sum, "isinstance": b_isinstance, "hasattr": b_hasattr, "getattr": b_getattr, "bool": b_bool,
                 "enumerate": lambda xs, start=0: list(enumerate(xs, start)), "zip": lambda *a: list(zip(*a)),
                 "list": lambda x=(): list(x), "tuple": lambda x=(): tuple(x), "dict": dict, "str": lambda x="": x if isinstance(x, str) else Opaque("str"),
